@@ -32,8 +32,8 @@ MAP = {
     "lib/src/cipher/stream/read.rs": ["C01", "C03"],
     "lib/src/cipher/stream/write.rs": ["C01", "C14"],
     "lib/src/io.rs": ["C01", "C03"],
-    "lib/src/entry.rs": ["C13", "C03", "C04", "C18"],
-    "lib/src/entry/meta.rs": ["C15", "C07"],
+    "lib/src/entry.rs": ["C13", "C03", "C04", "C18", "C10"],
+    "lib/src/entry/meta.rs": ["C15", "C07", "C10"],      # with_created/with_modified/with_accessed: strip only
     "lib/src/entry/attr.rs": ["C15", "C07"],
     "lib/src/entry/header.rs": ["C15", "C07"],
     "lib/src/entry/name.rs": ["C09", "C15"],
